@@ -98,3 +98,40 @@ Example cp_normalize_ex :
   let f1 : factor := (1%nat, fun _ _ => 2) in
   in_bounds [f0; f1] [1%nat; 0%nat] /\ cp_entry_term (fun _ => / 2) [f0; f1] [1%nat; 0%nat] 0%nat = 4.
 Proof. simpl. split; [lia|]. unfold cp_entry_term. simpl. lra. Qed.
+
+(* ------------------------------------------------------------------ tucker_normalize (tucker_tensor.py): the scale goes to the core *)
+(*   for i, factor: scales <- column norms ; core <- core * scales (along mode i) ; factor <- factor / where(scales == 0, 1, scales) *)
+Fixpoint tterm (fs : list factor) (idx jdx : list nat) : R :=
+  match fs, idx, jdx with
+  | f :: fs', i :: idx', j :: jdx' => ent f i j * tterm fs' idx' jdx'
+  | _, _, _ => 1
+  end.
+Fixpoint tscales (fs : list factor) (jdx : list nat) : R :=
+  match fs, jdx with
+  | f :: fs', j :: jdx' => scale_of (rows f) (ent f) j * tscales fs' jdx'
+  | _, _ => 1
+  end.
+Definition tucker_normalize (core : list nat -> R) (fs : list factor) : (list nat -> R) * list factor :=
+  (fun jdx => core jdx * tscales fs jdx, map norm_one fs).
+(* every term core[j] * prod_k U_k[i_k, j_k] of every entry of the represented tensor is unchanged *)
+Lemma tterm_normalised fs : forall idx jdx, in_bounds fs idx -> length jdx = length fs ->
+  tscales fs jdx * tterm (map norm_one fs) idx jdx = tterm fs idx jdx.
+Proof.
+  induction fs as [|f fs IH]; intros idx jdx Hb Hl.
+  - destruct idx; simpl; [ring | contradiction].
+  - destruct idx as [|i idx]; [contradiction|]. destruct jdx as [|j jdx]; [discriminate|]. destruct Hb as [Hi Hb].
+    cbn [map tterm tscales]. unfold norm_one at 1. cbn [ent snd].
+    rewrite <- (IH idx jdx Hb) by (simpl in Hl; lia). rewrite <- (normalise_factor_represents (rows f) (ent f) j i Hi). ring.
+Qed.
+Theorem tucker_normalize_represents core fs idx jdx : in_bounds fs idx -> length jdx = length fs ->
+  let '(core', fs') := tucker_normalize core fs in core' jdx * tterm fs' idx jdx = core jdx * tterm fs idx jdx.
+Proof. intros Hb Hl. unfold tucker_normalize. rewrite <- (tterm_normalised fs idx jdx Hb Hl). ring. Qed.
+Theorem tucker_normalize_unit_columns core fs j f' : In f' (snd (tucker_normalize core fs)) ->
+  colnorm2 (rows f') (ent f') j = 1 \/ (forall i, (i < rows f')%nat -> ent f' i j = 0).
+Proof.
+  unfold tucker_normalize. cbn [snd]. intros Hin. apply in_map_iff in Hin. destruct Hin as (f & <- & Hin).
+  unfold norm_one. cbn [rows ent fst snd].
+  destruct (Req_EM_T (colnorm2 (rows f) (ent f) j) 0) as [Hz|Hnz].
+  - right. apply (normalise_factor_zero _ _ _ Hz).
+  - left. now apply normalise_factor_unit.
+Qed.
